@@ -32,6 +32,7 @@ const preamble = `(set-logic ALL)
 (define-fun rstep ((r Ref)) Ref (ite ((_ is fld) r) (fld_b r) (ite ((_ is idx) r) (idx_b r) r)))
 (define-fun root ((r Ref)) Ref (rstep (rstep (rstep (rstep (rstep (rstep (rstep (rstep (rstep r))))))))))
 (define-fun ref_wf ((r Ref)) Bool (or ((_ is obj) (rstep (rstep (rstep r)))) ((_ is null) (rstep (rstep (rstep r))))))
+(define-fun under ((a Ref) (r Ref)) Bool (or (= r a) (= (rstep r) a) (= (rstep (rstep r)) a) (= (rstep (rstep (rstep r))) a) (= (rstep (rstep (rstep (rstep r)))) a)))
 (define-fun rootn ((r Ref)) Int (ite ((_ is obj) (root r)) (obj_n (root r)) (- 1)))
 (define-fun slice_wf ((s Slice)) Bool (and (ref_wf (s_base s)) (bvule (s_len s) (s_cap s)) (bvule (s_cap s) #x0000010000000000) (bvule (s_off s) #x0000010000000000) (=> (= (s_base s) null) (= (s_cap s) #x0000000000000000))))
 (define-fun nil_slice () Slice (mkslice null #x0000000000000000 #x0000000000000000 #x0000000000000000))
